@@ -43,9 +43,16 @@ type Verdict struct {
 	OutOfOrder bool
 	// Known is the number of known fields decoded, at any level.
 	Known int
+	// Views: extents (offset, length) of the non-empty values of nocopy fields, in message order.
+	Views []Extent
+	// NoCopyEmpty counts zero-length nocopy values.
+	NoCopyEmpty int
 	// kindGray: success vs error is not fixed (junk type codes in empty skipped containers).
 	kindGray bool
 }
+
+// Extent is a byte range of the input.
+type Extent struct{ Off, Len int }
 
 // KindGray reports whether success vs error is left open for a reason other than depth.
 func (v *Verdict) KindGray() bool { return v.kindGray }
@@ -186,6 +193,13 @@ func (d *mdec) structBody(s *StructSpec, pos int, dest *SVal, depth int) (int, b
 			return pos, false
 		}
 		dest.F[id] = nv
+		if f.NoCopy {
+			if len(nv.S) > 0 {
+				d.v.Views = append(d.v.Views, Extent{end - len(nv.S), len(nv.S)})
+			} else {
+				d.v.NoCopyEmpty++
+			}
+		}
 		seen[id] = true
 		d.v.Known++
 		pos = end
